@@ -654,16 +654,95 @@ pub fn check(ctx: &mut Ctx) {
 	];
 	ctx.run_sub(&StopMem);
 	ctx.run_sub(&UnreadAnswer);
+	ctx.run_sub(&DropLastHandle);
 	ctx.run_sub(&StopTcp);
 	let inc = INCONCLUSIVE.load(std::sync::atomic::Ordering::SeqCst);
 	ctx.extra.insert("tcp_inconclusive_cases".into(), json!(inc));
 }
 
 pub fn replay(file: &serde_json::Value) -> Option<i32> {
-	replay_with(&StopMem, file, "C10").or_else(|| replay_with(&UnreadAnswer, file, "C10")).or_else(|| replay_with(&StopTcp, file, "C10"))
+	replay_with(&StopMem, file, "C10").or_else(|| replay_with(&UnreadAnswer, file, "C10")).or_else(|| replay_with(&DropLastHandle, file, "C10")).or_else(|| replay_with(&StopTcp, file, "C10"))
 }
 
 #[allow(dead_code)]
 fn _v() -> Value {
 	json!(null)
+}
+
+// ---------------------------------------------------------------------------------------------
+// the server is stopped by dropping its last handle (nobody calls stop(), nobody awaits stopped())
+// ---------------------------------------------------------------------------------------------
+
+#[derive(Clone, Debug, Serialize, Deserialize)]
+pub struct DropCase {
+	pub ws_calls: u8,
+	pub http_call: bool,
+	pub clones_dropped_first: u8,
+	pub lowlevel: bool,
+}
+
+pub struct DropLastHandle;
+
+impl SubCheck for DropLastHandle {
+	type Case = DropCase;
+	fn name(&self) -> &'static str {
+		"last-handle-dropped"
+	}
+	fn cases(&self, tier: Tier) -> u32 {
+		tier.pick(3_000, 60_000)
+	}
+	fn strategy(&self, _tier: Tier) -> BoxedStrategy<DropCase> {
+		(0u8..4, any::<bool>(), 0u8..3, proptest::bool::weighted(0.25)).prop_map(|(ws_calls, http_call, clones_dropped_first, lowlevel)| DropCase { ws_calls, http_call, clones_dropped_first, lowlevel }).boxed()
+	}
+	fn run(&self, case: &DropCase, obs: &mut Obs) {
+		let rt = rt();
+		rt.block_on(async {
+			crate::panics::clear_local();
+			let fix = Fixture::new(Cfg::default());
+			let desc = || format!("case={case:?}");
+			let ws = if case.lowlevel { fix.ws_lowlevel().await } else { fix.ws().await };
+			let Ok(mut ws) = ws else {
+				obs.fail("c10/ws-handshake", "failed".to_string());
+				return;
+			};
+			for k in 0..case.ws_calls {
+				let _ = ws.send_text(&format!(r#"{{"jsonrpc":"2.0","id":"w{k}","method":"gated_async","params":["w{k}"]}}"#)).await;
+			}
+			let (mut io, _conn) = fix.raw_conn(8192);
+			if case.http_call {
+				let body = r#"{"jsonrpc":"2.0","id":"h","method":"gated_async","params":["h"]}"#;
+				let _ = io.write_all(http_request(body).as_bytes()).await;
+			}
+			settle().await;
+			let started = fix.ctx.log.lock().iter().filter(|l| l.phase == "started").count();
+			// every handle goes away: first some clones, then the last one
+			let Fixture { ctx, handle, stop, methods, builder, .. } = fix;
+			let clones: Vec<_> = (0..case.clones_dropped_first).map(|_| handle.clone()).collect();
+			drop(clones);
+			settle().await;
+			drop(handle);
+			drop((stop, methods, builder));
+			settle().await;
+			// the calls that were executing are still run to completion and answered
+			ctx.gates.release_all();
+			settle().await;
+			let texts = ws.drain_texts();
+			for k in 0..case.ws_calls {
+				let ok = texts.iter().filter_map(|t| serde_json::from_str::<Value>(t).ok()).any(|v| v["id"] == json!(format!("w{k}")) && v.get("result").is_some());
+				obs.check(ok, "c10/started-call-not-answered", || format!("WebSocket call w{k} was executing when the last handle was dropped; received {texts:?}; {}", desc()));
+			}
+			if case.http_call {
+				let mut buf = vec![0u8; 8192];
+				let n = io.read(&mut buf).now_or_never().and_then(|r| r.ok()).unwrap_or(0);
+				let text = String::from_utf8_lossy(&buf[..n]).to_string();
+				obs.check(text.starts_with("HTTP/1.1 200") && text.contains("\"id\":\"h\""), "c10/started-call-not-answered", || format!("HTTP call h was executing when the last handle was dropped; received {text:?}; {}", desc()));
+			}
+			let panics = crate::panics::take_local();
+			obs.check(panics.is_empty(), "c10/background-panic", || format!("{panics:?}; {}", desc()));
+			if started as u8 >= case.ws_calls + case.http_call as u8 && started > 0 {
+				obs.nontrivial();
+			}
+			obs.class(if case.lowlevel { "low-level-ws-connect" } else { "tower-service" });
+		});
+	}
 }
